@@ -114,7 +114,9 @@ def expected_conds(l3, res, path, sym_is_end, nbytes=1):
             conds.append((f'result code {code}', code_is(code)))
         terminal = code == 'DONE' or code.startswith('FINISH_')
         if not terminal:
-            if res.state in idx:
+            if res.state is absm.DEAD:
+                conds.append(('stored state index (one past the last state: dead)', cst == len(l3.comp.post.states)))
+            elif res.state in idx:
                 conds.append(('stored state index', cst == idx[res.state]))
             else:
                 conds.append(('successor state is in the machine', z3.BoolVal(False)))
